@@ -39,7 +39,7 @@ ASSUMPTIONS = ['no key joins in this check (C11 covers them)', 'oracle only at q
                'adding the same LinkCollection twice raises AttributeError in glue; modelled as a loud rejection']
 PROBES = ['chain_depth_ge_2', 'chain_depth_ge_3', 'cycle_or_diamond_choice', 'link_autoremoved_by_component', 'link_autoremoved_by_dataset',
           'reappend_after_links', 'ops_in_link_delay_window', 'rejected_extend', 'duplicate_link', 'multi_input_reached',
-          'incompatible_checked', 'aligned_link']
+          'incompatible_checked', 'aligned_link', 'mask_selection_on_linked_dataset']
 
 WEIGHTS = {'new': 3, 'append': 4, 'remove': 1.5, 'add_comp': 2, 'add_derived': 2, 'remove_comp': 1.5, 'add_link': 9,
            'add_again': 0.7, 'remove_link': 2.5, 'set_links': 0.7, 'delay_open': 1.5, 'delay_close': 2, 'extend_junk': 0.5,
@@ -410,5 +410,42 @@ def oracle(w, m, res, k):
                 res.probe('incompatible_checked')
             if can and not np.array_equal(np.asarray(mask, dtype=bool), np.asarray(vals) > 2.5):
                 raise Violation('C03/selection-mask-wrong/%s' % k, 'dataset %s attribute %s' % (d.label, cid.label))
+    # (5) a mask selection defined on one dataset's pixel grid, evaluated in every dataset that reaches those pixel attributes
+    from glue.core.subset import MaskSubsetState
+    for a in list(dc)[:2]:
+        if a.size == 0:
+            continue
+        mask = np.random.RandomState(len(m.links) * 7 + a.ndim).randint(0, 2, size=a.shape).astype(bool)
+        for d in dc:
+            state = MaskSubsetState(mask, a.pixel_component_ids)
+            try:
+                vals = [np.asarray(d[c]) for c in a.pixel_component_ids]
+                can = True
+            except IncompatibleAttribute:
+                can = False
+            if can and d is not a and not all(np.all(v == np.round(v)) for v in vals):
+                continue        # non-integer pixel positions: which pixel they fall in is not defined by the statement
+            try:
+                got = np.asarray(d.get_mask(state), dtype=bool)
+                ok = 'ok'
+            except IncompatibleAttribute:
+                ok = 'incompatible'
+            except Exception as e:
+                ok = 'crash:%s' % type(e).__name__
+            res.nchecks += 1
+            if ok.startswith('crash'):
+                raise Violation('C03/mask-selection-on-linked-dataset-crashes/%s' % ok[6:], 'mask defined on %s evaluated on %s' % (a.label, d.label))
+            if (ok == 'ok') != can:
+                raise Violation('C03/selection-compatibility-wrong/mask/%s' % k, 'mask on %s, dataset %s: readable=%s evaluated=%s' % (a.label, d.label, can, ok))
+            if can:
+                iv = [v.astype(int) for v in vals]
+                inb = np.ones(d.shape, dtype=bool)
+                for v, n in zip(iv, mask.shape):
+                    inb &= (v >= 0) & (v < n)
+                exp = np.zeros(d.shape, dtype=bool)
+                exp[inb] = mask[tuple(np.broadcast_to(v, d.shape)[inb] for v in iv)]
+                res.probe('mask_selection_on_linked_dataset' if d is not a else 'incompatible_checked', 1 if d is not a else 0)
+                if got.shape != exp.shape or not np.array_equal(got, exp):
+                    raise Violation('C03/mask-selection-wrong-on-linked-dataset/%s' % k, 'mask on %s evaluated on %s' % (a.label, d.label))
     res.log.append(['obs', counts, digest])
     res.fp(k, len(dc), len(m.links), sorted(counts), len(w.cms))
